@@ -41,22 +41,33 @@ def _p(rule, technique, text, ref, level="exploration", quick=90, thorough=1200,
             "design_ref": ref}
 
 
+WORKLOAD = ("per round the generator's groups (payments, keyregs, asset and application life cycles, boxes, inner payments, rekeys) plus drawn extras - the same group twice, a group already pending, a group committed a few blocks ago, two payments that each fit the balance but not both, "
+            "a payment that leaves the sender just above its minimum balance followed by small payments of that sender, two transactions under one lease, a chain whose second group is only valid after the first, validity windows of 1-2 rounds, not-yet-valid / expired / badly signed groups, bursts that fill the pool - "
+            "are verified (verify.TxnGroup with the ledger's verified cache) and Remembered by a real TransactionPool (TxPoolSize 8-30 and MaxTxnBytesPerBlock default/6000/2600 drawn per run, so that the size limit binds and the pending set can span several blocks); "
+            "15/30/50% of the rounds (drawn per run) are proposed by another node: the driver's evaluator over its own groups, groups shared with the pending set, and groups that drain the sender or take the lease of a pending transaction; "
+            "otherwise the block is pool.AssembleBlock(next, deadline) - called when the pool is caught up, or started before OnNewBlock with a deadline that makes recomputeBlockEvaluator stop after a drawn number of transactions, or with a deadline already expired before OnNewBlock (empty block) - finished as agreement.proposalForBlock does "
+            "(proposer drawn among VotingAccountsForRound, eligibility as agreement.payoutEligible); after every added block pool.OnNewBlock(block, delta); after every crash / clean reload of the ledger a new pool to which the formerly pending groups are submitted again")
+
 PROPS = {
-    "C20": _p("one evaluation = one seeded history of 20-140 blocks on a real on-disk ledger whose proposer is a real TransactionPool (TxPoolSize 8-30): per round the generator's groups (payments, keyregs, asset and application life cycles, boxes, inner payments, rekeys) plus duplicates, double spends, balance-exhausting payments, lease pairs, dependent chains, short-lived / not-yet-valid / expired / badly signed groups are verified and Remembered; "
-              "15-50% of the rounds are proposed by another node (the driver's evaluator over other groups, some shared with or conflicting with the pending set); otherwise AssembleBlock(next, deadline) - when the pool is caught up, or started before OnNewBlock with a deadline that cuts the assembly after a drawn number of transactions, or with a deadline already expired (empty block) - then FinishBlock as agreement does; "
-              "every block (pool-assembled or foreign) is evaluated before it is added through six paths: Ledger.Validate (prefetcher + parallel signature verification on NumCPU real workers), eval.Eval(validate=false) (AddBlock path), a validating evaluator without prefetcher/execution pool, Ledger.Validate on a replica ledger with the same blocks but different MaxAcctLookback/LRU configuration, own crashes and reloads, Ledger.Validate a second time, and regeneration of the block in generate mode from the same signed transactions; "
-              "pool-assembled blocks must be accepted by the primary and the replica, all paths must give the same canonical StateDelta digest (accounts, resources, kv, txids, leases, creatables, header, totals; sorted, msgpack) and byte-identical blocks; "
+    "C20": _p("one evaluation = one seeded history of 20-140 blocks on a real on-disk ledger (crashes, reloads, fake-clock flushes as drawn); " + WORKLOAD + "; "
+              "every block (pool-assembled or foreign) is evaluated before it is added through six paths: Ledger.Validate (prefetcher + parallel signature verification on NumCPU real workers), eval.Eval(validate=false) (AddBlock / tracker-replay path), a validating evaluator fed group by group without prefetcher or execution pool, "
+              "Ledger.Validate on a replica ledger with the same blocks but another MaxAcctLookback, no LRU caches, fed through AddBlock, with its own crashes and clean reloads, Ledger.Validate a second time (warm caches), and regeneration of the block in generate mode from the same signed transactions; "
+              "a pool-assembled block rejected by the primary or the replica is a violation; all paths must give the same canonical StateDelta digest (accounts, asset/app resources, kv with old values, txids with intra index, leases, creatables, header, totals; one line per element, sorted, msgpack) and byte-identical blocks "
+              "(the regenerated block modulo the order of the proposer-chosen expired/absent lists); "
               "non-trivial = >=1 non-empty pool-assembled block validated on both ledgers and added, and >=1 six-way comparison of a non-empty block; distinct = distinct event-log digest",
-              "deterministic simulation: real transaction pool as proposer under a seeded submission/foreign-block/deadline/restart schedule; differential evaluation of every block over code paths, worker scheduling, cache states and ledgers",
+              "deterministic simulation: real transaction pool as proposer under a seeded submission / foreign-block / deadline / restart schedule; differential evaluation of every block over code paths, worker scheduling, cache states and ledgers",
               "Every explored block assembled from the pool validated on the assembling ledger and on a replica with different flush/cache/restart history; every explored block gave identical StateDelta digests and block bytes on all six evaluation paths.",
               "DESIGN.md §4 C20",
-              extra=["the completion order of prefetch and signature-verification tasks is left to the Go scheduler over real worker goroutines (GOMAXPROCS 1/2/4/16 in the determinism self-test), not enumerated",
+              extra=["the completion order of prefetch and signature-verification tasks is left to the Go scheduler over real worker goroutines (GOMAXPROCS 1/2/4/16 across workers and the determinism self-test); it is not enumerated; only the RESULT of the comparison is logged",
+                     "the order of the resource slices inside a StateDelta is not part of the compared state change (the evaluator folds application storage deltas in map-iteration order; observed to vary between evaluations on the unchanged tree, counted as c20.order_differs)",
                      "SQLite only (Pebble-backed replicas are the subject of C47)"]),
-    "C44": _p("one evaluation = one seeded history as for C20 with a payment-heavy mix (balance-draining payments so that later pending groups become unaffordable, validity windows of 1-3 rounds, three leases per sender shared with the base generator), TxPoolSize 8-30 drawn per run, clean reloads and crashes of the ledger underneath (new pool, pending groups re-submitted), "
-              "Remember racing OnNewBlock (at most once per run); at every quiescent point - before and after each Remember batch, after each OnNewBlock, after each reopen -: no pending txid is in the chain, no txid twice, no empty group, count <= TxPoolSize and == PendingCount(), every pending LastValid >= next round, "
-              "and the pending groups replayed IN ORDER on a fresh BlockEvaluator (Generate+Validate) for the round after the latest block are ALL accepted; every group Remember admits is applied to that same evaluator right away and must be accepted (admission oracle); "
+    "C44": _p("one evaluation = one seeded history of 20-140 blocks as for C20 with 45% of the generator's draws turned into payments; " + WORKLOAD + "; at most once per run a Remember is started while the ledger already has a block the pool has not been told about; "
+              "at every quiescent point - before and after each Remember batch, after each OnNewBlock, after each reopen (empty pool and after re-submission) -: no pending txid is in the chain (committed-txid map kept from the added blocks, cut back when a crash loses blocks), no txid twice, no empty group, transaction count <= TxPoolSize and == PendingCount(), every pending LastValid >= next round, "
+              "and the pending groups replayed IN ORDER on a fresh BlockEvaluator (Generate+Validate, header derived from the latest block) are ALL accepted (a full block is continued with ResetTxnBytes as the pool does); every group Remember admits is applied to that same evaluator right away and must be accepted (admission oracle); "
               "non-trivial = >=1 group admitted, >=1 rejected, >=1 pending group replayed, and (>=1 pending group evicted by OnNewBlock although not committed, or >=1 pending group committed by a foreign block); distinct = distinct event-log digest",
               "deterministic simulation: real transaction pool under seeded valid/invalid/duplicate/conflicting submissions interleaved with local and foreign blocks, deadlines, size limits and ledger restarts; reference = fresh evaluator replay + committed-txid map",
               "At every explored quiescent point the pool held only uncommitted, unexpired, distinct transactions within its size limit that a fresh evaluator accepts in order on the latest state, and every admitted group was acceptable on top of the pending groups at admission.",
-              "DESIGN.md §4 C44"),
+              "DESIGN.md §4 C44",
+              extra=["one direction only: what the pool rejects or evicts is counted by reason, never judged",
+                     "Remember racing OnNewBlock: the waiting Remember is released by the OnNewBlock broadcast (ingest's one-second timeout runs on the real clock and is not explored)"]),
 }
